@@ -400,9 +400,35 @@ def rule_free_escape(chk):
     chk.floor(R + ":functions", n, 8)
 
 
+def rule_commit_then_fail(chk):
+    from . import commitfail
+    R = "R-COMMIT-THEN-FAIL"
+    chk.rule(R, "after a successful CodeHolder::new_reloc_entry() every failing exit of the creating function first turns the entry into "
+                "RelocType::kNone (skipped by relocation): no half-built relocation survives a reported failure")
+    sites = [("asmjit/x86/x86assembler.cpp", r"x86::Assembler::_emit$"), ("asmjit/arm/a64assembler.cpp", r"a64::Assembler::_emit$"),
+             ("asmjit/core/assembler.cpp", r"BaseAssembler::(embed_label|embed_label_delta)$")]
+    n = 0
+    for unit, rex in sites:
+        f = chk.facts(unit, funcs=rex)
+        for fn in cfg.load_functions(f):
+            rep = commitfail.analyse(fn)
+            ords = 0
+            for i, x in sorted(fn.calls(lambda x: x.get("cn") == "new_reloc_entry"), key=lambda t: t[1]["l"]):
+                n += 1
+                inst = "%s|creation#%d" % (short(fn.name), ords)
+                ords += 1
+                w = rep.get(i)
+                chk.ob(R, inst, w is None, loc=fn.loc(i),
+                       detail="the relocation entry created here is still live at the failing exit %s" % (
+                           ("line %d" % fn.line_of(w)) if isinstance(w, int) else ("label %s" % w[1] if w else "")),
+                       key="commitfail|" + inst)
+    chk.floor(R + ":creations", n, 7)
+
+
 def run(chk):
     units = [u for u in core.library_units() if "/ujit/" not in u]
     rule_rollback(chk)
+    rule_commit_then_fail(chk)
     rule_free_escape(chk)
     rule_null_tested(chk, units)
     rule_reserve_then_append(chk, units)
